@@ -133,8 +133,10 @@ func waitParked(fn, state string, timeout time.Duration) bool {
 	deadline := time.Now().Add(timeout)
 	for {
 		for _, g := range findG(parseDump(vlib.AllStacks()), fn) {
-			if g.State == state {
-				return true
+			for _, st := range strings.Split(state, "|") {
+				if g.State == st {
+					return true
+				}
 			}
 		}
 		if time.Now().After(deadline) {
